@@ -144,20 +144,32 @@ def mps_to_dense(psi, include_norm=True):
         if psi.bc == 'finite':
             out = out.reshape(out.shape[1:-1])
         return out * psi.norm if include_norm else out
+    # state = s_0 G_0 s_1 G_1 ... s_L with B_i = s_i^nuL G_i s_{i+1}^nuR: bond b (left of site b) carries s_b^(1 - nuR_{b-1} - nuL_b);
+    # combining the exponents per bond avoids dividing by (possibly exactly vanishing) singular values for the usual forms
+    def spow(sv, e):
+        sv = np.asarray(sv, dtype=float)
+        if e == 0:
+            return np.ones_like(sv)
+        if e > 0:
+            return sv ** e
+        res = np.zeros_like(sv)
+        nz = sv > 0
+        res[nz] = sv[nz] ** e  # directions with vanishing weight do not contribute
+        return res
     for i in range(L):
         B = psi._B[i]
         T = B.to_ndarray()
         T = np.transpose(T, [B.get_leg_index('vL'), B.get_leg_index('p'), B.get_leg_index('vR')])
-        form = psi.form[i]
-        if form is None:
-            raise ValueError('non-canonical form has no dense meaning without all S')
-        nuL, nuR = form
+        nuL, nuR = psi.form[i]
+        if i == 0:
+            eL = 1.0 - nuL
+        else:
+            eL = 1.0 - psi.form[i - 1][1] - nuL
         sL = np.asarray(psi._S[i])
-        sR = np.asarray(psi._S[i + 1]) if i + 1 < len(psi._S) else np.asarray(psi._S[0])
-        M = T * (sL ** (1.0 - nuL))[:, None, None] * (sR ** (-nuR))[None, None, :]
+        M = T * spow(sL, eL)[:, None, None]
         out = M if out is None else np.tensordot(out, M, axes=(out.ndim - 1, 0))
     sLast = np.asarray(psi._S[L]) if L < len(psi._S) else np.asarray(psi._S[0])
-    out = out * sLast
+    out = out * spow(sLast, 1.0 - psi.form[L - 1][1])
     if psi.bc == 'finite':
         out = out.reshape(out.shape[1:-1])
     if include_norm:
